@@ -404,31 +404,69 @@ func (x *c15) mapsArray(idx int) {
 	c := x.c
 	r := c.Rand(idx, 15)
 	n := r.Range(0, 6)
+	kind := idx % 3      // key values: 0 integers (negative, zero, positive), 1 strings (the empty string included), 2 floats
+	kname := "k"         // the key sorted by; "size" is an ordinary key here although maps also have a size property
+	if (idx/3)%4 == 3 {
+		kname = "size"
+	}
+	typed := r.P(1, 3) // []map[string]int / string / float64: a zero value is a value, not a missing key
 	var objs []gen.V
+	var typedI []map[string]int
+	var typedS []map[string]string
+	var typedF []map[string]float64
 	for i := 0; i < n; i++ {
-		switch r.Intn(5) {
-		case 0:
-			objs = append(objs, gen.Map(gen.KV{K: "id", V: gen.Int(int64(i))})) // key absent
-		case 1:
-			objs = append(objs, gen.Map(gen.KV{K: "id", V: gen.Int(int64(i))}, gen.KV{K: "k", V: gen.Nil}))
-		default:
-			if idx%2 == 0 {
-				objs = append(objs, gen.Map(gen.KV{K: "id", V: gen.Int(int64(i))}, gen.KV{K: "k", V: gen.Int(int64(r.Range(1, 4)))}))
-			} else {
-				objs = append(objs, gen.Map(gen.KV{K: "id", V: gen.Int(int64(i))}, gen.KV{K: "k", V: gen.Str([]string{"a", "b", "c", "d"}[r.Intn(4)])}))
-			}
+		id := gen.Int(int64(i))
+		mode := r.Intn(5)
+		if typed && mode == 1 {
+			mode = 0 // a typed map cannot hold nil
 		}
+		ti, ts, tf := map[string]int{"id": i}, map[string]string{"id": fmt.Sprint(i)}, map[string]float64{"id": float64(i)}
+		switch mode {
+		case 0:
+			objs = append(objs, gen.Map(gen.KV{K: "id", V: id})) // key absent
+		case 1:
+			objs = append(objs, gen.Map(gen.KV{K: "id", V: id}, gen.KV{K: kname, V: gen.Nil}))
+		default:
+			var kv gen.V
+			switch kind {
+			case 0:
+				v := r.Range(-3, 4)
+				kv, ti[kname] = gen.Int(int64(v)), v
+			case 1:
+				v := []string{"", "a", "b", "c", "d", "B"}[r.Intn(6)]
+				kv, ts[kname] = gen.Str(v), v
+			default:
+				v := []float64{-2.5, -1, 0, 0.5, 1.5, 3}[r.Intn(6)]
+				kv, tf[kname] = gen.Float(v), v
+			}
+			objs = append(objs, gen.Map(gen.KV{K: "id", V: id}, gen.KV{K: kname, V: kv}, gen.KV{K: "has", V: gen.Bool(true)}))
+		}
+		typedI, typedS, typedF = append(typedI, ti), append(typedS, ts), append(typedF, tf)
 	}
 	lv := gen.Arr(objs...)
 	var bind any = gen.Canon(lv)
-	if r.P(1, 3) {
+	if typed {
+		switch kind {
+		case 0:
+			bind = typedI
+		case 1:
+			bind = typedS
+		default:
+			bind = typedF
+		}
+	} else if r.P(1, 3) {
 		bind = gen.Realise(lv, r, gen.Rep{Typed: true}, true)
 	}
-	desc := gen.Describe(bind)
+	desc := gen.Describe(bind) + " key=" + kname
 	if !c.Begin("maps-array:" + desc) {
 		return
 	}
-	src := "{% assign r = a | sort: 'k' %}{% for x in r %}{{ x.id }}:{% if x.k == nil %}~{% else %}{{ x.k }}{% endif %},{% endfor %}|{{ a | map: 'k' | join: ',' }}|{{ a | map: 'id' | join: ',' }}|{% for x in a %}{{ x.id }},{% endfor %}"
+	// an entry has the key when its own map has it with a non-nil value: x.has marks those in the generic
+	// representation; in the typed one the presence is recovered from the id
+	src := "{% assign r = a | sort: '" + kname + "' %}{% for x in r %}{{ x.id }}:{{ x['" + kname + "'] }},{% endfor %}|{{ a | map: 'id' | join: ',' }}|{% for x in a %}{{ x.id }},{% endfor %}"
+	if kname == "k" {
+		src += "|{{ a | map: 'k' | join: ',' }}"
+	}
 	t := x.tpl(src)
 	if t == nil {
 		return
@@ -436,6 +474,12 @@ func (x *c15) mapsArray(idx int) {
 	res := core.Render(t, map[string]any{"a": bind})
 	c.Eval(1)
 	c.Obs("maps_array_cases", 1)
+	if typed {
+		c.Obs("maps_array_typed_maps", 1)
+	}
+	if kname == "size" {
+		c.Obs("maps_array_size_key", 1)
+	}
 	if n >= 2 {
 		c.Distinct("maps", desc)
 	}
@@ -447,18 +491,23 @@ func (x *c15) mapsArray(idx int) {
 		return
 	}
 	parts := strings.Split(res.Out, "|")
-	if len(parts) != 4 {
+	if len(parts) < 3 {
 		viol("malformed output")
 		return
 	}
 	// sort: key  -> permutation, entries lacking the key first, the rest ascending by key
-	var ids, keys []string
+	keyOf := map[string]gen.V{}
+	for i, o := range objs {
+		if v, ok := o.Get(kname); ok && v.K != gen.KNil {
+			keyOf[fmt.Sprint(i)] = v
+		}
+	}
+	var ids []string
 	for _, tok := range strings.Split(strings.TrimSuffix(parts[0], ","), ",") {
 		if tok == "" {
 			continue
 		}
-		kv := strings.SplitN(tok, ":", 2)
-		ids, keys = append(ids, kv[0]), append(keys, kv[1])
+		ids = append(ids, strings.SplitN(tok, ":", 2)[0])
 	}
 	if len(ids) != n {
 		viol("sort: key must return a permutation (wrong number of elements)")
@@ -471,25 +520,17 @@ func (x *c15) mapsArray(idx int) {
 			viol("sort: key must return a permutation (duplicate or missing elements)")
 		}
 		sawKey := false
-		prev := ""
-		for _, k := range keys {
-			if k == "~" {
+		var prev gen.V
+		for _, id := range ids {
+			k, has := keyOf[id]
+			if !has {
 				if sawKey {
 					viol("sort: key must put entries lacking the key first")
 				}
 				continue
 			}
-			if sawKey {
-				a, b := gen.Str(prev), gen.Str(k)
-				if idx%2 == 0 {
-					var ia, ib int64
-					fmt.Sscan(prev, &ia)
-					fmt.Sscan(k, &ib)
-					a, b = gen.Int(ia), gen.Int(ib)
-				}
-				if ref.Less(b, a) == ref.True {
-					viol("sort: key must order the rest ascending by key")
-				}
+			if sawKey && ref.Less(k, prev) == ref.True {
+				viol("sort: key must order the rest ascending by key")
 			}
 			sawKey, prev = true, k
 		}
@@ -506,10 +547,10 @@ func (x *c15) mapsArray(idx int) {
 		wantID = append(wantID, p)
 		wantOrder = append(wantOrder, p+",")
 	}
-	if parts[1] != strings.Join(wantK, ",") || parts[2] != strings.Join(wantID, ",") {
+	if parts[1] != strings.Join(wantID, ",") || len(parts) == 4 && parts[3] != strings.Join(wantK, ",") {
 		viol("map must agree with per-element property lookup")
 	}
-	if parts[3] != strings.Join(wantOrder, "") {
+	if parts[2] != strings.Join(wantOrder, "") {
 		viol("the array the filters were applied to has changed")
 	}
 }
